@@ -9,6 +9,7 @@ import (
 	"go/parser"
 	"go/token"
 	"go/types"
+	"go/version"
 	"os"
 	"path/filepath"
 	"sort"
@@ -93,6 +94,7 @@ func RewritePackage(root, module, srcPath, srcDir, dstDir, vschedPath string) er
 	r := &rewriter{info: info}
 	for _, f := range files {
 		r.used = false
+		r.pre122 = f.GoVersion != "" && version.Compare(f.GoVersion, "go1.22") < 0
 		for _, d := range f.Decls {
 			r.children(d)
 		}
@@ -104,7 +106,11 @@ func RewritePackage(root, module, srcPath, srcDir, dstDir, vschedPath string) er
 			return fmt.Errorf("printing rewritten %s: %v", fset.File(f.Pos()).Name(), err)
 		}
 		name := filepath.Base(fset.File(f.Pos()).Name())
-		if err := os.WriteFile(filepath.Join(dstDir, name), buf.Bytes(), 0644); err != nil {
+		out := buf.Bytes()
+		if f.GoVersion != "" { // comments were dropped: put the file's language version back
+			out = append([]byte("//go:build "+f.GoVersion+"\n\n"), out...)
+		}
+		if err := os.WriteFile(filepath.Join(dstDir, name), out, 0644); err != nil {
 			return err
 		}
 	}
